@@ -170,10 +170,13 @@ theorem exBody_safe (b : Bytes) (e : AppEx) (off fid : Nat) (ftyp : UInt8) (h : 
     RetOK b off (exBody e b off fid ftyp) := by
   unfold exBody
   split
-  · exact caseStr_safe _ e b off h
   · split
-    · exact caseI32_safe _ e b off h
-    · exact caseSkip_safe e b off ftyp h
+    · exact caseStr_safe _ e b off h
+    · split
+      · exact caseI32_safe _ e b off h
+      · exact caseSkip_safe e b off ftyp h
+  · rename_i hne
+    exact absurd rfl (hne (1, 11) (2, 8))
 
 theorem exLoop_safe (b : Bytes) : ∀ (fuel : Nat) (e : AppEx) (off : Nat), off ≤ b.length → b.length - off < fuel →
       ∃ r, exLoop b fuel e off = .ok r ∧ (r.err = none → r.off ≤ b.length)
